@@ -74,318 +74,322 @@ def run(ck):
                  "broader that does not re-raise is a designated sink of the frozen table and "
                  "does not call abort()", 'M0', 12)
 
-    # ------------------------------------------------------------------ R09.1
-    init, rf, ab = (circ.methods.get(n) for n in ('__init__', 'run_forever', 'abort'))
-    ck.need(R1, init and rf and ab, "Circuit.__init__/run_forever/abort not found")
-    own(ck, R1, '_error', {init.fid: 'None', rf.fid: 'first error caught by the main handler',
-                           ab.fid: 'abort()'})
-    for fi in (rf, ab):
-        g = ck.cfg(fi.fid, 'M1')
-        ws = nodes_writing_attr(g, '_error')
-        ck.need(R1, ws, f"{fi.fid} does not write _error")
-        for w in ws:
-            ok = g.has_guard(w, 'self._error is None', True)
-            v = written_value(w, '_error')
-            not_none = not is_const(v, None)
-            ck.ob(R1, f"{fi.fid} :: {norm1(w.ast)}", ok and not_none,
-                  "written only while the slot is empty" if ok and not_none else
-                  ("the error slot is overwritten although it may already hold the first error"
-                   if not ok else "the error slot is reset to None"), fi, w.ast)
-    g = ck.cfg(ab.fid, 'M0')
-    w = nodes_writing_attr(g, '_error')[0]
-    cancels = nodes_calling(g, 'cancel')
-    ok = len(cancels) == 1 and g.dominates(w, cancels[0]) and \
-        recv(node_calls(cancels[0], 'cancel')[0]) == 'self._simtask'
-    ck.ob(R1, f"{ab.fid} :: record then cancel", ok,
-          "the error is recorded before the simulation task is cancelled" if ok else
-          "abort() cancels the task before (or without) recording the error", ab,
-          cancels[0].ast if cancels else ab.node)
-    conv = nodes_where(g, lambda n: isinstance(n.ast, ast.Assign) and
-                       isinstance(n.ast.value, ast.Call) and call_name(n.ast.value) == 'TypeError'
-                       and g.has_guard(n, 'isinstance(exc, BaseException)', False))
-    param = ab.node.args.args[1].arg
-    okc = bool(conv) and expr_is(ck, ab.fid, 'M0', w, written_value(w, '_error'), param) is False or \
-        (bool(conv) and norm(written_value(w, '_error')) == param and
-         norm(conv[0].ast.targets[0]) == param and g.dominates(conv[0], w) is False)
-    okc = bool(conv) and norm(written_value(w, '_error')) == param
-    ck.ob(R1, f"{ab.fid} :: non-exception argument", okc,
-          "a non-exception argument is replaced by a TypeError (still an error)" if okc else
-          "abort(<non-exception>) is not turned into an error", ab, ab.node)
-    isr = circ.methods.get('is_ready')
-    gi = ck.cfg(isr.fid, 'M0')
-    r = return_nodes(gi)
-    ok = len(r) == 1 and isinstance(r[0].ast.value, ast.BoolOp) and isinstance(r[0].ast.value.op, ast.And) \
-        and any(norm(v) in ('self._error is None', 'not self._error') for v in r[0].ast.value.values) \
-        and any(norm(v) == 'self._simtask is not None' for v in r[0].ast.value.values)
-    ck.ob(R1, isr.fid, ok, "is_ready() = task exists and error slot empty (never ready again "
-          "once stopped: the slot is write-once)" if ok else
-          "is_ready() does not require an empty error slot", isr, isr.node)
-    cnf = circ.methods.get('check_not_finalized')
-    gcn = ck.cfg(cnf.fid, 'M0')
-    rs = nodes_where(gcn, lambda n: isinstance(n.ast, ast.Raise) and gcn.has_guard(n, 'self._error', True),
-                     kinds=('stmt',))
-    ck.ob(R1, cnf.fid, bool(rs), "a circuit that was shut down refuses modification" if rs else
-          "check_not_finalized does not raise when the error slot is set", cnf, cnf.node)
+    with ck.section('R09.1'):
+        # ------------------------------------------------------------------ R09.1
+        init, rf, ab = (circ.methods.get(n) for n in ('__init__', 'run_forever', 'abort'))
+        ck.need(R1, init and rf and ab, "Circuit.__init__/run_forever/abort not found")
+        own(ck, R1, '_error', {init.fid: 'None', rf.fid: 'first error caught by the main handler',
+                               ab.fid: 'abort()'})
+        for fi in (rf, ab):
+            g = ck.cfg(fi.fid, 'M1')
+            ws = nodes_writing_attr(g, '_error')
+            ck.need(R1, ws, f"{fi.fid} does not write _error")
+            for w in ws:
+                ok = g.has_guard(w, 'self._error is None', True)
+                v = written_value(w, '_error')
+                not_none = not is_const(v, None)
+                ck.ob(R1, f"{fi.fid} :: {norm1(w.ast)}", ok and not_none,
+                      "written only while the slot is empty" if ok and not_none else
+                      ("the error slot is overwritten although it may already hold the first error"
+                       if not ok else "the error slot is reset to None"), fi, w.ast)
+        g = ck.cfg(ab.fid, 'M0')
+        w = nodes_writing_attr(g, '_error')[0]
+        cancels = nodes_calling(g, 'cancel')
+        ok = len(cancels) == 1 and g.dominates(w, cancels[0]) and \
+            recv(node_calls(cancels[0], 'cancel')[0]) == 'self._simtask'
+        ck.ob(R1, f"{ab.fid} :: record then cancel", ok,
+              "the error is recorded before the simulation task is cancelled" if ok else
+              "abort() cancels the task before (or without) recording the error", ab,
+              cancels[0].ast if cancels else ab.node)
+        conv = nodes_where(g, lambda n: isinstance(n.ast, ast.Assign) and
+                           isinstance(n.ast.value, ast.Call) and call_name(n.ast.value) == 'TypeError'
+                           and g.has_guard(n, 'isinstance(exc, BaseException)', False))
+        param = ab.node.args.args[1].arg
+        okc = bool(conv) and expr_is(ck, ab.fid, 'M0', w, written_value(w, '_error'), param) is False or \
+            (bool(conv) and norm(written_value(w, '_error')) == param and
+             norm(conv[0].ast.targets[0]) == param and g.dominates(conv[0], w) is False)
+        okc = bool(conv) and norm(written_value(w, '_error')) == param
+        ck.ob(R1, f"{ab.fid} :: non-exception argument", okc,
+              "a non-exception argument is replaced by a TypeError (still an error)" if okc else
+              "abort(<non-exception>) is not turned into an error", ab, ab.node)
+        isr = circ.methods.get('is_ready')
+        gi = ck.cfg(isr.fid, 'M0')
+        r = return_nodes(gi)
+        ok = len(r) == 1 and isinstance(r[0].ast.value, ast.BoolOp) and isinstance(r[0].ast.value.op, ast.And) \
+            and any(norm(v) in ('self._error is None', 'not self._error') for v in r[0].ast.value.values) \
+            and any(norm(v) == 'self._simtask is not None' for v in r[0].ast.value.values)
+        ck.ob(R1, isr.fid, ok, "is_ready() = task exists and error slot empty (never ready again "
+              "once stopped: the slot is write-once)" if ok else
+              "is_ready() does not require an empty error slot", isr, isr.node)
+        cnf = circ.methods.get('check_not_finalized')
+        gcn = ck.cfg(cnf.fid, 'M0')
+        rs = nodes_where(gcn, lambda n: isinstance(n.ast, ast.Raise) and gcn.has_guard(n, 'self._error', True),
+                         kinds=('stmt',))
+        ck.ob(R1, cnf.fid, bool(rs), "a circuit that was shut down refuses modification" if rs else
+              "check_not_finalized does not raise when the error slot is set", cnf, cnf.node)
 
-    # ------------------------------------------------------------------ R09.2
-    g = ck.cfg(rf.fid, 'M1')
-    final = [n for n in g.nodes if n.kind == 'stmt' and isinstance(n.ast, ast.Raise)
-             and any(v == g.raise_exit.id for v, _ in g.succ[n.id])]
-    late = [n for n in final if not g.has_guard(n, 'self._simtask is not None', True)]
-    rdf = ck.rdefs(rf.fid, 'M1')
-    mainh = [n for n in g.nodes if n.kind == 'handler' and g.pred[n.id] and
-             set(handler_types(n.ast)) >= {'Exception', 'CancelledError'}]
+    with ck.section('R09.2'):
+        # ------------------------------------------------------------------ R09.2
+        g = ck.cfg(rf.fid, 'M1')
+        final = [n for n in g.nodes if n.kind == 'stmt' and isinstance(n.ast, ast.Raise)
+                 and any(v == g.raise_exit.id for v, _ in g.succ[n.id])]
+        late = [n for n in final if not g.has_guard(n, 'self._simtask is not None', True)]
+        rdf = ck.rdefs(rf.fid, 'M1')
+        mainh = [n for n in g.nodes if n.kind == 'handler' and g.pred[n.id] and
+                 set(handler_types(n.ast)) >= {'Exception', 'CancelledError'}]
 
-    def _is_slot(node_, e_):
-        """self._error, or a local read from it after the main try was left (the slot is write-once
-        - R09.1 - so a snapshot taken there is the recorded error)"""
-        if e_ is None:
+        def _is_slot(node_, e_):
+            """self._error, or a local read from it after the main try was left (the slot is write-once
+            - R09.1 - so a snapshot taken there is the recorded error)"""
+            if e_ is None:
+                return False
+            if norm(e_) == 'self._error':
+                return True
+            if isinstance(e_, ast.Name):
+                vals_ = rdf.value_exprs(node_, e_.id)
+                defs_ = rdf.defs_at(node_, e_.id)
+                in_try = set()
+                for tr_ in [x for x in own_nodes(rf.node) if isinstance(x, ast.Try) and any(
+                        set(handler_types(h)) >= {'Exception', 'CancelledError'} for h in x.handlers)]:
+                    in_try |= {id(y) for st_ in tr_.body for y in ast.walk(st_)}
+                try_nodes = {x.id for x in g.nodes if x.ast is not None and id(x.ast) in in_try}
+                return bool(vals_) and all(not isinstance(v_, str) and norm(v_) == 'self._error' for v_ in vals_) \
+                    and all(id(d.ast) not in in_try and not (g.reachable_from(d) & try_nodes) for d in defs_)
             return False
-        if norm(e_) == 'self._error':
-            return True
-        if isinstance(e_, ast.Name):
-            vals_ = rdf.value_exprs(node_, e_.id)
-            defs_ = rdf.defs_at(node_, e_.id)
-            in_try = set()
-            for tr_ in [x for x in own_nodes(rf.node) if isinstance(x, ast.Try) and any(
-                    set(handler_types(h)) >= {'Exception', 'CancelledError'} for h in x.handlers)]:
-                in_try |= {id(y) for st_ in tr_.body for y in ast.walk(st_)}
-            try_nodes = {x.id for x in g.nodes if x.ast is not None and id(x.ast) in in_try}
-            return bool(vals_) and all(not isinstance(v_, str) and norm(v_) == 'self._error' for v_ in vals_) \
-                and all(id(d.ast) not in in_try and not (g.reachable_from(d) & try_nodes) for d in defs_)
-        return False
-    ok = bool(late) and all(_is_slot(n, n.ast.exc) for n in late)
-    ck.ob(R2, f"{rf.fid} :: final raise", ok,
-          "run_forever ends with `raise self._error` (the recorded first error)" if ok else
-          f"run_forever raises {[norm(n.ast.exc) for n in late]} instead of the recorded error",
-          rf, late[0].ast if late else rf.node)
-    ck.ob(R2, f"{rf.fid} :: never returns", g.exit.id not in g.reachable(),
-          "run_forever has no normal exit" if g.exit.id not in g.reachable() else
-          "run_forever can return normally (callers rely on an exception)", rf, rf.node)
-    hs = [n for n in g.nodes if n.kind == 'handler' and g.pred[n.id]]
-    main = [h for h in hs if set(handler_types(h.ast)) >= {'Exception', 'CancelledError'}]
-    ck.ob(R2, f"{rf.fid} :: main handler", len(main) == 1,
-          "the main try catches Exception and CancelledError" if len(main) == 1 else
-          "the main handler does not catch both Exception and CancelledError", rf,
-          main[0].ast if main else rf.node)
-    pre = nodes_where(g, lambda n: isinstance(n.ast, ast.Raise) and n.ast.exc is not None and
-                      norm(n.ast.exc) == 'self._error' and g.has_guard(n, 'self._error is None', False),
-                      kinds=('stmt',))
-    starts = nodes_calling(g, 'start')
-    ok = bool(pre) and bool(main) and all(main[0].id in g.reachable_from(p) for p in pre) and \
-        all(not (s.id in g.reachable_from(g.entry, avoid=[n for n in g.nodes if n.kind == 'test'
-                                                          and norm(n.ast) == 'self._error is not None']))
-            for s in starts)
-    ck.ob(R2, f"{rf.fid} :: abort before start", ok,
-          "a pre-start abort is raised inside the main try before any start() call" if ok else
-          "an abort() issued before the start does not make the start fail with that error", rf,
-          pre[0].ast if pre else rf.node)
-    sd = circ.methods.get('shutdown')
-    gs = ck.cfg(sd.fid, 'M1')
-    aw = nodes_where(gs, lambda n: any(isinstance(x, ast.Await) and norm(x.value) == 'self._simtask'
-                                       for r in [n.ast] for x in walk_shallow(r)))
-    hs = [n for n in gs.nodes if n.kind == 'handler' and gs.pred[n.id]]
-    ok = len(aw) == 1 and len(hs) == 1 and handler_types(hs[0].ast) == ['CancelledError']
-    ab_calls = nodes_calling(gs, 'abort')
-    ok2 = len(ab_calls) == 1 and gs.dominates(ab_calls[0], aw[0]) if aw else False
-    if ok2:
-        a = node_calls(ab_calls[0], 'abort')[0].args[0]
-        ok2 = isinstance(a, ast.Call) and norm(a.func).endswith('CancelledError')
-    ck.ob(R2, sd.fid, ok and ok2,
-          "shutdown(): abort(CancelledError), await the task, absorb only CancelledError" if ok and ok2
-          else "shutdown() swallows more than CancelledError or does not stop the simulation with a "
-          "CancelledError", sd, sd.node)
-    run = prog.func('simulator:run')
-    gr = ck.cfg(run.fid, 'M1')
-    first = nodes_where(gr, lambda n: isinstance(n.ast, ast.Assign) and
-                        norm(n.ast.targets[0]) == 'all_tasks')
-    ok = len(first) == 1 and isinstance(first[0].ast.value, ast.List) and \
-        [norm(e) for e in first[0].ast.value.elts] == ['simtask']
-    ck.ob(R2, f"{run.fid} :: simulation task first", ok,
-          "all_tasks starts with the simulation task" if ok else
-          "the simulation task is not the first task whose error is collected", run,
-          first[0].ast if first else run.node)
-    coll = [n for n in gr.nodes if n.kind == 'for' and 'all_tasks' in norm(n.ast.iter)
-            and 'enumerate' in norm(n.ast.iter)]
-    ok = len(coll) == 1 and 'reversed' not in norm(coll[0].ast.iter) and 'sorted' not in norm(coll[0].ast.iter)
-    ck.ob(R2, f"{run.fid} :: collection order", ok,
-          "errors are collected in task order" if ok else "errors are not collected in task order",
-          run, coll[0].ast if coll else run.node)
-    keep = nodes_where(gr, lambda n: isinstance(n.ast, ast.Assign) and
-                       norm(n.ast.targets[0]) == 'run_error' and not is_const(n.ast.value, None))
-    ok = bool(keep) and all(gr.has_guard(k, 'run_error is None', True) for k in keep)
-    # the other idiom: every error is appended to a list in collection order and the FIRST item is
-    # raised after the loop
-    lst = None
-    if not keep and coll:
-        apps_ = nodes_where(gr, lambda n: any(call_name(c) == 'append' and len(c.args) == 1
-                                              for c in node_calls(n)) and gr.dominates(coll[0], n))
-        if len(apps_) == 1:
-            lst = recv(node_calls(apps_[0], 'append')[0])
-            hn = [h for h in gr.nodes if h.kind == 'handler' and gr.pred[h.id] and gr.dominates(h, apps_[0])]
-            ok = bool(hn) and norm(node_calls(apps_[0], 'append')[0].args[0]) == (hn[-1].ast.name or '')
-    ck.ob(R2, f"{run.fid} :: first error kept", ok,
-          "run_error is assigned only while it is None" if ok else
-          "a later task error replaces the first one", run, keep[0].ast if keep else run.node)
-    fin = nodes_where(gr, lambda n: isinstance(n.ast, ast.Raise) and n.ast.exc is not None and
-                      norm(n.ast.exc) == 'run_error' and gr.has_guard(n, 'run_error is None', False),
-                      kinds=('stmt',))
-    inner_h = [n for n in gr.nodes if n.kind == 'handler' and gr.pred[n.id]
-               and coll and gr.dominates(coll[0], n)]
-    types = sorted(t for h in inner_h for t in handler_types(h.ast))
-    if not fin and lst:
+        ok = bool(late) and all(_is_slot(n, n.ast.exc) for n in late)
+        ck.ob(R2, f"{rf.fid} :: final raise", ok,
+              "run_forever ends with `raise self._error` (the recorded first error)" if ok else
+              f"run_forever raises {[norm(n.ast.exc) for n in late]} instead of the recorded error",
+              rf, late[0].ast if late else rf.node)
+        ck.ob(R2, f"{rf.fid} :: never returns", g.exit.id not in g.reachable(),
+              "run_forever has no normal exit" if g.exit.id not in g.reachable() else
+              "run_forever can return normally (callers rely on an exception)", rf, rf.node)
+        hs = [n for n in g.nodes if n.kind == 'handler' and g.pred[n.id]]
+        main = [h for h in hs if set(handler_types(h.ast)) >= {'Exception', 'CancelledError'}]
+        ck.ob(R2, f"{rf.fid} :: main handler", len(main) == 1,
+              "the main try catches Exception and CancelledError" if len(main) == 1 else
+              "the main handler does not catch both Exception and CancelledError", rf,
+              main[0].ast if main else rf.node)
+        pre = nodes_where(g, lambda n: isinstance(n.ast, ast.Raise) and n.ast.exc is not None and
+                          norm(n.ast.exc) == 'self._error' and g.has_guard(n, 'self._error is None', False),
+                          kinds=('stmt',))
+        starts = nodes_calling(g, 'start')
+        ok = bool(pre) and bool(main) and all(main[0].id in g.reachable_from(p) for p in pre) and \
+            all(not (s.id in g.reachable_from(g.entry, avoid=[n for n in g.nodes if n.kind == 'test'
+                                                              and norm(n.ast) == 'self._error is not None']))
+                for s in starts)
+        ck.ob(R2, f"{rf.fid} :: abort before start", ok,
+              "a pre-start abort is raised inside the main try before any start() call" if ok else
+              "an abort() issued before the start does not make the start fail with that error", rf,
+              pre[0].ast if pre else rf.node)
+        sd = circ.methods.get('shutdown')
+        gs = ck.cfg(sd.fid, 'M1')
+        aw = nodes_where(gs, lambda n: any(isinstance(x, ast.Await) and norm(x.value) == 'self._simtask'
+                                           for r in [n.ast] for x in walk_shallow(r)))
+        hs = [n for n in gs.nodes if n.kind == 'handler' and gs.pred[n.id]]
+        ok = len(aw) == 1 and len(hs) == 1 and handler_types(hs[0].ast) == ['CancelledError']
+        ab_calls = nodes_calling(gs, 'abort')
+        ok2 = len(ab_calls) == 1 and gs.dominates(ab_calls[0], aw[0]) if aw else False
+        if ok2:
+            a = node_calls(ab_calls[0], 'abort')[0].args[0]
+            ok2 = isinstance(a, ast.Call) and norm(a.func).endswith('CancelledError')
+        ck.ob(R2, sd.fid, ok and ok2,
+              "shutdown(): abort(CancelledError), await the task, absorb only CancelledError" if ok and ok2
+              else "shutdown() swallows more than CancelledError or does not stop the simulation with a "
+              "CancelledError", sd, sd.node)
+        run = prog.func('simulator:run')
+        gr = ck.cfg(run.fid, 'M1')
+        first = nodes_where(gr, lambda n: isinstance(n.ast, ast.Assign) and
+                            norm(n.ast.targets[0]) == 'all_tasks')
+        ok = len(first) == 1 and isinstance(first[0].ast.value, ast.List) and \
+            [norm(e) for e in first[0].ast.value.elts] == ['simtask']
+        ck.ob(R2, f"{run.fid} :: simulation task first", ok,
+              "all_tasks starts with the simulation task" if ok else
+              "the simulation task is not the first task whose error is collected", run,
+              first[0].ast if first else run.node)
+        coll = [n for n in gr.nodes if n.kind == 'for' and 'all_tasks' in norm(n.ast.iter)
+                and 'enumerate' in norm(n.ast.iter)]
+        ok = len(coll) == 1 and 'reversed' not in norm(coll[0].ast.iter) and 'sorted' not in norm(coll[0].ast.iter)
+        ck.ob(R2, f"{run.fid} :: collection order", ok,
+              "errors are collected in task order" if ok else "errors are not collected in task order",
+              run, coll[0].ast if coll else run.node)
+        keep = nodes_where(gr, lambda n: isinstance(n.ast, ast.Assign) and
+                           norm(n.ast.targets[0]) == 'run_error' and not is_const(n.ast.value, None))
+        ok = bool(keep) and all(gr.has_guard(k, 'run_error is None', True) for k in keep)
+        # the other idiom: every error is appended to a list in collection order and the FIRST item is
+        # raised after the loop
+        lst = None
+        if not keep and coll:
+            apps_ = nodes_where(gr, lambda n: any(call_name(c) == 'append' and len(c.args) == 1
+                                                  for c in node_calls(n)) and gr.dominates(coll[0], n))
+            if len(apps_) == 1:
+                lst = recv(node_calls(apps_[0], 'append')[0])
+                hn = [h for h in gr.nodes if h.kind == 'handler' and gr.pred[h.id] and gr.dominates(h, apps_[0])]
+                ok = bool(hn) and norm(node_calls(apps_[0], 'append')[0].args[0]) == (hn[-1].ast.name or '')
+        ck.ob(R2, f"{run.fid} :: first error kept", ok,
+              "run_error is assigned only while it is None" if ok else
+              "a later task error replaces the first one", run, keep[0].ast if keep else run.node)
         fin = nodes_where(gr, lambda n: isinstance(n.ast, ast.Raise) and n.ast.exc is not None and
-                          norm(n.ast.exc) == f'{lst}[0]' and gr.has_guard(n, lst, True), kinds=('stmt',))
-    ok = bool(fin) and types == ['CancelledError', 'Exception']
-    ck.ob(R2, f"{run.fid} :: result", ok,
-          "cancellations are absorbed, the first error is raised after the loop, else None" if ok
-          else "run() does not raise the collected error / does not absorb cancellation", run,
-          fin[0].ast if fin else run.node)
+                          norm(n.ast.exc) == 'run_error' and gr.has_guard(n, 'run_error is None', False),
+                          kinds=('stmt',))
+        inner_h = [n for n in gr.nodes if n.kind == 'handler' and gr.pred[n.id]
+                   and coll and gr.dominates(coll[0], n)]
+        types = sorted(t for h in inner_h for t in handler_types(h.ast))
+        if not fin and lst:
+            fin = nodes_where(gr, lambda n: isinstance(n.ast, ast.Raise) and n.ast.exc is not None and
+                              norm(n.ast.exc) == f'{lst}[0]' and gr.has_guard(n, lst, True), kinds=('stmt',))
+        ok = bool(fin) and types == ['CancelledError', 'Exception']
+        ck.ob(R2, f"{run.fid} :: result", ok,
+              "cancellations are absorbed, the first error is raised after the loop, else None" if ok
+              else "run() does not raise the collected error / does not absorb cancellation", run,
+              fin[0].ast if fin else run.node)
 
-    # ------------------------------------------------------------------ R09.3
-    ev = prog.func('block:SBlock.event')
-    ge = ck.cfg(ev.fid, 'M1')
-    hs = [n for n in ge.nodes if n.kind == 'handler' and ge.pred[n.id]]
-    gen = [h for h in hs if handler_types(h.ast) == ['Exception']]
-    ck.need(R3, len(gen) == 1, "SBlock.event: generic handler not recognised")
-    h = gen[0]
-    ok = handler_reraises(ev, h.ast)
-    ck.ob(R3, f"{ev.fid} :: generic handler re-raises", ok,
-          "a handler error is always re-raised to the caller" if ok else
-          "SBlock.event swallows a handler error on some path", ev, h.ast)
-    aborts = [n for n in nodes_calling(ge, 'abort') if ge.dominates(h, n)]
-    okab = len(aborts) == 1
-    if okab:
-        arg = node_calls(aborts[0], 'abort')[0].args[0]
-        cause = nodes_where(ge, lambda n: isinstance(n.ast, ast.Assign) and
-                            norm(n.ast.targets[0]) == f"{norm(arg)}.__cause__" and
-                            norm(n.ast.value) == (h.ast.name or ''))
-        raises_after = [n for n in ge.nodes if n.kind == 'stmt' and isinstance(n.ast, ast.Raise)
-                        and ge.dominates(h, n)]
-        def _unk_guarded(n_):
-            return any('EdzedUnknownEvent' in t and p_ for t, p_ in ge.guard_texts(n_))
-        okab = bool(cause) and ge.dominates(cause[0], aborts[0]) and \
-            all(r.id in ge.reachable_from(aborts[0]) or _unk_guarded(r) for r in raises_after) and \
-            recv(node_calls(aborts[0], 'abort')[0]) == 'self.circuit'
-        # the only guard of the abort inside the handler is the traceback-depth test
-        extra = [t for t, p in ge.guard_texts(aborts[0]) - ge.guard_texts(h) if 'tb_next' not in t
-                 and not ('EdzedUnknownEvent' in t and not p)]
-        okab = okab and not extra
-    ck.ob(R3, f"{ev.fid} :: abort before raise", okab,
-          "self.circuit.abort(E) with E.__cause__ = err runs inside event(), before the re-raise: "
-          "the simulator is told even if a caller catches the exception" if okab else
-          "the handler error is not reported to the simulator (abort missing, after the raise, "
-          "without cause, or under an extra condition)", ev, aborts[0].ast if aborts else h.ast)
-    from rules.shared import unknown_event_not_fatal
-    unknown_event_not_fatal(ck, R3)
-    unk = [x for x in hs if handler_types(x.ast) == ['EdzedUnknownEvent']]
-    ok = True
-    ck.ob(R3, f"{ev.fid} :: unknown event not fatal (clause order)", ok,
-          "EdzedUnknownEvent is caught first and re-raised without abort" if ok else
-          "an unknown event type can abort the simulation", ev, unk[0].ast if unk else ev.node)
-    tm = prog.func('addons:AddonAsync._task_monitor')
-    gt = ck.cfg(tm.fid, 'M1')
-    aw = nodes_where(gt, lambda n: any(isinstance(x, ast.Await) for x in walk_shallow(n.ast)))
-    ck.need(R3, len(aw) == 1, "_task_monitor: the awaited coroutine was not recognised")
-    ab_nodes = nodes_calling(gt, 'abort')
-    # every exceptional continuation of kind E reaches abort before leaving
-    wit = None
-    for v, lab in gt.succ[aw[0].id]:
-        vn = gt.nodes[v]
-        if lab == 'exc' and vn.kind == 'dispatch' and vn.kinds == {'E'}:
-            wit = gt.path_avoiding(vn, [gt.raise_exit, gt.exit], avoid=ab_nodes)
-    hs = [n for n in gt.nodes if n.kind == 'handler' and gt.pred[n.id]]
-    only_exc = all(handler_types(x.ast) == ['Exception'] for x in hs) and bool(hs)
-    rer = all(handler_reraises(tm, x.ast) for x in hs)
-    okarg = bool(ab_nodes) and all(norm(node_calls(a, 'abort')[0].args[0]) == (hs[0].ast.name or '')
-                                   for a in ab_nodes) if hs else False
-    ck.ob(R3, f"{tm.fid} :: abort on every Exception exit", wit is None and only_exc and rer and okarg,
-          "any exception of a monitored task is delivered to abort() and re-raised; cancellation "
-          "is not treated as an error" if wit is None and only_exc and rer and okarg else
-          "an exception of a monitored task can leave _task_monitor without abort(), or "
-          "CancelledError is caught", tm, aw[0].ast, witness=path_witness(gt, wit))
-    svc = nodes_where(gt, lambda n: isinstance(n.ast, ast.Raise) and gt.has_guard(n, 'is_service', True),
-                      kinds=('stmt',))
-    ok = bool(svc) and bool(hs) and all(hs[0].id in gt.reachable_from(s) for s in svc)
-    ck.ob(R3, f"{tm.fid} :: service must not return", ok,
-          "a service task that returns raises inside the same try (reported through abort)" if ok
-          else "a returning service task is not reported", tm, svc[0].ast if svc else tm.node)
-    callers = sorted({fi.fid for fi, c in call_sites(ck, '_task_monitor')})
-    ck.ob(R3, "who calls _task_monitor", callers == ['addons:AddonAsync._create_monitored_task'],
-          f"_task_monitor is used by {callers}", tm, tm.node)
-    for fid in ('addons:AddonMainTask.start', 'blocklib.sblocks2:OutputAsync.start'):
-        fi = prog.func(fid)
-        gg = ck.cfg(fid, 'M0')
-        raw = nodes_calling(gg, 'create_task') + nodes_calling(gg, 'ensure_future')
-        mon = nodes_calling(gg, '_create_monitored_task')
-        ok = not raw and len(mon) == 1
-        if ok and fid.endswith('AddonMainTask.start'):
-            c = node_calls(mon[0], '_create_monitored_task')[0]
-            ok = any(k.arg == 'is_service' and is_const(k.value, True) for k in c.keywords)
-        ck.ob(R3, f"{fid} :: monitored task", ok,
-              "the block task is created through _create_monitored_task" +
-              (" as a service" if fid.endswith('AddonMainTask.start') else '') if ok else
-              "a block task is created without the monitor (its failure would be silent)", fi, fi.node)
-    # NOSWALLOW on the critical path
-    for fid in CRITICAL:
-        if fid not in prog.funcs:
-            ck.ob(R3, f"{fid} :: exists", False, f"critical-path function {fid} not found "
-                  "(renamed?)", None, '')
-            continue
-        fi = prog.func(fid)
-        for hh in handlers_in(fi):
-            if not catches_broad(hh):
+    with ck.section('R09.3'):
+        # ------------------------------------------------------------------ R09.3
+        ev = prog.func('block:SBlock.event')
+        ge = ck.cfg(ev.fid, 'M1')
+        hs = [n for n in ge.nodes if n.kind == 'handler' and ge.pred[n.id]]
+        gen = [h for h in hs if handler_types(h.ast) == ['Exception']]
+        ck.need(R3, len(gen) == 1, "SBlock.event: generic handler not recognised")
+        h = gen[0]
+        ok = handler_reraises(ev, h.ast)
+        ck.ob(R3, f"{ev.fid} :: generic handler re-raises", ok,
+              "a handler error is always re-raised to the caller" if ok else
+              "SBlock.event swallows a handler error on some path", ev, h.ast)
+        aborts = [n for n in nodes_calling(ge, 'abort') if ge.dominates(h, n)]
+        okab = len(aborts) == 1
+        if okab:
+            arg = node_calls(aborts[0], 'abort')[0].args[0]
+            cause = nodes_where(ge, lambda n: isinstance(n.ast, ast.Assign) and
+                                norm(n.ast.targets[0]) == f"{norm(arg)}.__cause__" and
+                                norm(n.ast.value) == (h.ast.name or ''))
+            raises_after = [n for n in ge.nodes if n.kind == 'stmt' and isinstance(n.ast, ast.Raise)
+                            and ge.dominates(h, n)]
+            def _unk_guarded(n_):
+                return any('EdzedUnknownEvent' in t and p_ for t, p_ in ge.guard_texts(n_))
+            okab = bool(cause) and ge.dominates(cause[0], aborts[0]) and \
+                all(r.id in ge.reachable_from(aborts[0]) or _unk_guarded(r) for r in raises_after) and \
+                recv(node_calls(aborts[0], 'abort')[0]) == 'self.circuit'
+            # the only guard of the abort inside the handler is the traceback-depth test
+            extra = [t for t, p in ge.guard_texts(aborts[0]) - ge.guard_texts(h) if 'tb_next' not in t
+                     and not ('EdzedUnknownEvent' in t and not p)]
+            okab = okab and not extra
+        ck.ob(R3, f"{ev.fid} :: abort before raise", okab,
+              "self.circuit.abort(E) with E.__cause__ = err runs inside event(), before the re-raise: "
+              "the simulator is told even if a caller catches the exception" if okab else
+              "the handler error is not reported to the simulator (abort missing, after the raise, "
+              "without cause, or under an extra condition)", ev, aborts[0].ast if aborts else h.ast)
+        from rules.shared import unknown_event_not_fatal
+        unknown_event_not_fatal(ck, R3)
+        unk = [x for x in hs if handler_types(x.ast) == ['EdzedUnknownEvent']]
+        ok = True
+        ck.ob(R3, f"{ev.fid} :: unknown event not fatal (clause order)", ok,
+              "EdzedUnknownEvent is caught first and re-raised without abort" if ok else
+              "an unknown event type can abort the simulation", ev, unk[0].ast if unk else ev.node)
+        tm = prog.func('addons:AddonAsync._task_monitor')
+        gt = ck.cfg(tm.fid, 'M1')
+        aw = nodes_where(gt, lambda n: any(isinstance(x, ast.Await) for x in walk_shallow(n.ast)))
+        ck.need(R3, len(aw) == 1, "_task_monitor: the awaited coroutine was not recognised")
+        ab_nodes = nodes_calling(gt, 'abort')
+        # every exceptional continuation of kind E reaches abort before leaving
+        wit = None
+        for v, lab in gt.succ[aw[0].id]:
+            vn = gt.nodes[v]
+            if lab == 'exc' and vn.kind == 'dispatch' and vn.kinds == {'E'}:
+                wit = gt.path_avoiding(vn, [gt.raise_exit, gt.exit], avoid=ab_nodes)
+        hs = [n for n in gt.nodes if n.kind == 'handler' and gt.pred[n.id]]
+        only_exc = all(handler_types(x.ast) == ['Exception'] for x in hs) and bool(hs)
+        rer = all(handler_reraises(tm, x.ast) for x in hs)
+        okarg = bool(ab_nodes) and all(norm(node_calls(a, 'abort')[0].args[0]) == (hs[0].ast.name or '')
+                                       for a in ab_nodes) if hs else False
+        ck.ob(R3, f"{tm.fid} :: abort on every Exception exit", wit is None and only_exc and rer and okarg,
+              "any exception of a monitored task is delivered to abort() and re-raised; cancellation "
+              "is not treated as an error" if wit is None and only_exc and rer and okarg else
+              "an exception of a monitored task can leave _task_monitor without abort(), or "
+              "CancelledError is caught", tm, aw[0].ast, witness=path_witness(gt, wit))
+        svc = nodes_where(gt, lambda n: isinstance(n.ast, ast.Raise) and gt.has_guard(n, 'is_service', True),
+                          kinds=('stmt',))
+        ok = bool(svc) and bool(hs) and all(hs[0].id in gt.reachable_from(s) for s in svc)
+        ck.ob(R3, f"{tm.fid} :: service must not return", ok,
+              "a service task that returns raises inside the same try (reported through abort)" if ok
+              else "a returning service task is not reported", tm, svc[0].ast if svc else tm.node)
+        callers = sorted({fi.fid for fi, c in call_sites(ck, '_task_monitor')})
+        ck.ob(R3, "who calls _task_monitor", callers == ['addons:AddonAsync._create_monitored_task'],
+              f"_task_monitor is used by {callers}", tm, tm.node)
+        for fid in ('addons:AddonMainTask.start', 'blocklib.sblocks2:OutputAsync.start'):
+            fi = prog.func(fid)
+            gg = ck.cfg(fid, 'M0')
+            raw = nodes_calling(gg, 'create_task') + nodes_calling(gg, 'ensure_future')
+            mon = nodes_calling(gg, '_create_monitored_task')
+            ok = not raw and len(mon) == 1
+            if ok and fid.endswith('AddonMainTask.start'):
+                c = node_calls(mon[0], '_create_monitored_task')[0]
+                ok = any(k.arg == 'is_service' and is_const(k.value, True) for k in c.keywords)
+            ck.ob(R3, f"{fid} :: monitored task", ok,
+                  "the block task is created through _create_monitored_task" +
+                  (" as a service" if fid.endswith('AddonMainTask.start') else '') if ok else
+                  "a block task is created without the monitor (its failure would be silent)", fi, fi.node)
+        # NOSWALLOW on the critical path
+        for fid in CRITICAL:
+            if fid not in prog.funcs:
+                ck.ob(R3, f"{fid} :: exists", False, f"critical-path function {fid} not found "
+                      "(renamed?)", None, '')
                 continue
-            ok = handler_reraises(fi, hh)
-            ck.ob(R3, f"{fid} :: except {norm(hh.type) if hh.type is not None else ''}", ok,
-                  "re-raises on all paths" if ok else
-                  "a handler on the critical path can swallow the exception (the simulator would "
-                  "continue after an error)", fi, hh)
-    cb = prog.cls('blocklib.sblocks1:ControlBlock')
-    for hname, cls_ in (('_event_shutdown', 'CancelledError'), ('_event_abort', 'EdzedCircuitError')):
-        fi = cb.methods.get(hname)
-        ck.need(R3, fi is not None, f"ControlBlock.{hname} not found")
-        gg = ck.cfg(fi.fid, 'M0')
-        abn = nodes_calling(gg, 'abort')
-        ok = bool(abn) and must_pass(gg, gg.entry, abn, [gg.exit]) is None
-        if ok:
-            arg = node_calls(abn[0], 'abort')[0].args[0]
-            vals = ck.rdefs(fi.fid, 'M0').value_exprs(abn[0], arg.id) if isinstance(arg, ast.Name) else [arg]
-            ok = all(isinstance(v, ast.Call) and norm(v.func).endswith(cls_) for v in vals) and bool(vals)
-        ck.ob(R3, fi.fid, ok, f"reaches abort({cls_}(...)) on all paths" if ok else
-              f"the control event does not reach abort() with a {cls_}", fi, fi.node)
+            fi = prog.func(fid)
+            for hh in handlers_in(fi):
+                if not catches_broad(hh):
+                    continue
+                ok = handler_reraises(fi, hh)
+                ck.ob(R3, f"{fid} :: except {norm(hh.type) if hh.type is not None else ''}", ok,
+                      "re-raises on all paths" if ok else
+                      "a handler on the critical path can swallow the exception (the simulator would "
+                      "continue after an error)", fi, hh)
+        cb = prog.cls('blocklib.sblocks1:ControlBlock')
+        for hname, cls_ in (('_event_shutdown', 'CancelledError'), ('_event_abort', 'EdzedCircuitError')):
+            fi = cb.methods.get(hname)
+            ck.need(R3, fi is not None, f"ControlBlock.{hname} not found")
+            gg = ck.cfg(fi.fid, 'M0')
+            abn = nodes_calling(gg, 'abort')
+            ok = bool(abn) and must_pass(gg, gg.entry, abn, [gg.exit]) is None
+            if ok:
+                arg = node_calls(abn[0], 'abort')[0].args[0]
+                vals = ck.rdefs(fi.fid, 'M0').value_exprs(abn[0], arg.id) if isinstance(arg, ast.Name) else [arg]
+                ok = all(isinstance(v, ast.Call) and norm(v.func).endswith(cls_) for v in vals) and bool(vals)
+            ck.ob(R3, fi.fid, ok, f"reaches abort({cls_}(...)) on all paths" if ok else
+                  f"the control event does not reach abort() with a {cls_}", fi, fi.node)
 
-    # ------------------------------------------------------------------ R09.4
-    seen_keys = set()
-    total = broad = 0
-    for fi in prog.pkg_funcs(include_demo=False):
-        for hh in handlers_in(fi):
-            total += 1
-            if not catches_broad(hh):
-                continue
-            broad += 1
-            if handler_reraises(fi, hh):
-                continue
-            key = (fi.fid, norm(hh.type) if hh.type is not None else 'BaseException')
-            seen_keys.add(key)
-            ok = key in SINK_TABLE
-            calls_abort = any(isinstance(x, ast.Call) and call_name(x) == 'abort'
-                              for s in hh.body for x in walk_shallow(s))
-            ck.ob(R4, f"{fi.fid} :: except {key[1]} (line-independent)", ok and not calls_abort,
-                  f"designated sink: {SINK_TABLE.get(key)}" if ok and not calls_abort else
-                  (f"a handler for {key[1]} that does not re-raise exists outside the designated "
-                   f"sinks: errors of this code are silently swallowed" if not ok else
-                   "a designated non-fatal sink calls abort()"), fi, hh)
-    ck.extra['handlers_total'] = total
-    ck.extra['handlers_broad'] = broad
-    for fid in ('simulator:Circuit._run_tasks', 'simulator:Circuit._stop_sblocks',
-                'addons:AddonPersistence.init_from_persistent_data',
-                'addons:AddonPersistence.save_persistent_state'):
-        fi = prog.func(fid)
-        bad = [x for x in own_nodes(fi.node) if isinstance(x, ast.Call) and call_name(x) == 'abort']
-        bad += [x for x in own_nodes(fi.node) if isinstance(x, ast.Raise) and
-                not (fid.endswith('_run_tasks') and False)]
-        ck.ob(R4, f"{fid} :: neither aborts nor raises", not bad,
-              "failures of asynchronous init/clean-up, restore and save are only logged" if not bad
-              else f"{fid} escalates a non-fatal failure ({norm1(bad[0])})", fi,
-              bad[0] if bad else fi.node)
+    with ck.section('R09.4'):
+        # ------------------------------------------------------------------ R09.4
+        seen_keys = set()
+        total = broad = 0
+        for fi in prog.pkg_funcs(include_demo=False):
+            for hh in handlers_in(fi):
+                total += 1
+                if not catches_broad(hh):
+                    continue
+                broad += 1
+                if handler_reraises(fi, hh):
+                    continue
+                key = (fi.fid, norm(hh.type) if hh.type is not None else 'BaseException')
+                seen_keys.add(key)
+                ok = key in SINK_TABLE
+                calls_abort = any(isinstance(x, ast.Call) and call_name(x) == 'abort'
+                                  for s in hh.body for x in walk_shallow(s))
+                ck.ob(R4, f"{fi.fid} :: except {key[1]} (line-independent)", ok and not calls_abort,
+                      f"designated sink: {SINK_TABLE.get(key)}" if ok and not calls_abort else
+                      (f"a handler for {key[1]} that does not re-raise exists outside the designated "
+                       f"sinks: errors of this code are silently swallowed" if not ok else
+                       "a designated non-fatal sink calls abort()"), fi, hh)
+        ck.extra['handlers_total'] = total
+        ck.extra['handlers_broad'] = broad
+        for fid in ('simulator:Circuit._run_tasks', 'simulator:Circuit._stop_sblocks',
+                    'addons:AddonPersistence.init_from_persistent_data',
+                    'addons:AddonPersistence.save_persistent_state'):
+            fi = prog.func(fid)
+            bad = [x for x in own_nodes(fi.node) if isinstance(x, ast.Call) and call_name(x) == 'abort']
+            bad += [x for x in own_nodes(fi.node) if isinstance(x, ast.Raise) and
+                    not (fid.endswith('_run_tasks') and False)]
+            ck.ob(R4, f"{fid} :: neither aborts nor raises", not bad,
+                  "failures of asynchronous init/clean-up, restore and save are only logged" if not bad
+                  else f"{fid} escalates a non-fatal failure ({norm1(bad[0])})", fi,
+                  bad[0] if bad else fi.node)
